@@ -149,7 +149,7 @@ _NP_NS["erf"] = erf
 
 DENSITIES = {
     # name -> (params, density text, antiderivative text)
-    "normal": (["mu", "sigma"], "exp(-0.5*((x-mu)/sigma)**2)/sqrt(2.0*np.pi*sigma**2)", "0.5*(1.0+erf((x-mu)/(sqrt(2.0)*sigma)))"),
+    "normal": (["mu", "sigma"], "exp(-0.5*((x-mu)/sigma)**2)/sqrt(2.0*np.pi*sigma**2)", "0.5*(1.0+erf((x-mu)/sqrt(2.0*sigma**2)))"),
     "expon": (["tau"], "exp(-x/tau)/tau", "-exp(-x/tau)"),
     "lin_density": (["a", "b"], "a*x + b + 0.0*x", "0.5*a*x**2 + b*x"),
 }
